@@ -72,8 +72,8 @@ func splitCTEs(sql string) ([]cte, string, error) {
 	}
 }
 
-// splitTop splits s at top-level occurrences of sep (outside parentheses and string literals)
-func splitTop(s, sep string) []string {
+// c08SplitTop splits s at top-level occurrences of sep (outside parentheses and string literals)
+func c08SplitTop(s, sep string) []string {
 	var res []string
 	depth, inStr, start := 0, false, 0
 	for i := 0; i < len(s); i++ {
@@ -127,7 +127,7 @@ func parseSelect(body string) (selectParts, error) {
 	for {
 		best, bestKw := -1, ""
 		for _, kw := range clauseKw {
-			parts := splitTop(rest, kw)
+			parts := c08SplitTop(rest, kw)
 			if len(parts) > 1 && (best < 0 || len(parts[0]) < best) {
 				best, bestKw = len(parts[0]), kw
 			}
@@ -140,7 +140,7 @@ func parseSelect(body string) (selectParts, error) {
 		rest = rest[best+len(bestKw):]
 		cur = strings.TrimSpace(bestKw)
 	}
-	for _, c := range splitTop(cut["cols"], ", ") {
+	for _, c := range c08SplitTop(cut["cols"], ", ") {
 		c = strings.TrimSpace(c)
 		if i := strings.LastIndex(c, " as "); i >= 0 && !strings.Contains(c[i+4:], ")") {
 			p.cols[c[i+4:]] = c[:i]
